@@ -208,3 +208,14 @@ func selectPath(paths []*PathSum, asg Asg) (*PathSum, string) {
 	}
 	return hit, ""
 }
+
+// selectBodyPath is selectPath for loop bodies: an assignment for which no path condition
+// holds does not enter the iteration (the loop condition is part of every body path) and
+// is skipped (nil, "").
+func selectBodyPath(paths []*PathSum, asg Asg) (*PathSum, string) {
+	row, err := selectPath(paths, asg)
+	if err != "" && strings.HasPrefix(err, "no path condition holds") {
+		return nil, ""
+	}
+	return row, err
+}
